@@ -192,6 +192,7 @@ var seedExpectations = []seedExpect{
 	{"dce-pointer-escape", "C13", "census.loadonly", "dce.findDeadLocals:load-census"},
 	{"lower-scope-leftover", "C11", "scope.leaveclean", "lowerFunction:locals"},
 	{"let-pointer-copy", "C08", "attr.aliasclosure", "lowerLocalConst:localIsPtr"},
+	{"sroa-init-lost", "C13", "split.initkept", "sroa.decompose:LocalVariable.Init"},
 	{"glsl-all-entry-points", "C17", "epselect.agree", "Writer.scanTextureSamplerPairs:filter"},
 	{"unknown-name-default", "C17", "name.silentdefault", "Lowerer.addressSpace"},
 	{"mem2reg-revoke-in-walk", "C13", "commit.revoke", "walkBlock"},
